@@ -131,7 +131,7 @@ Fixpoint dty_ok (n : nat) (t : dty) : bool :=
 
 Definition fld_ok (n : nat) (f : fld) : bool :=
   dty_ok n (fl_ty f)
-  && (0 <=? fl_min f) && ext_leb (Fin 1) (fl_max f)
+  && (0 <=? fl_min f) && ext_leb (Fin 1) (fl_max f) && ext_leb (Fin (fl_min f)) (fl_max f)
   && match fl_kind f with
      | FAttr => match fl_ty f with DLeaf _ => true | _ => false end
                 && ext_leb (fl_max f) (Fin 1) && is_none (fl_default f)
